@@ -56,6 +56,12 @@ def renders(ctx, base, rng, n_orders, same_order_procs=2):
         out.append((c, rc.run_impl_fresh(binary, c)))
     for _ in range(same_order_procs):
         out.append((base, rc.run_impl_fresh(binary, base)))
+    # ... and rendered again later in the life of ONE process (after the same set and another order of it): the text
+    # depends on the findings, not on what the process has rendered before
+    if len(orders) > 1:
+        again = rc.run_impl_batch(binary, [base, orders[1], base, base])
+        out.append((base, again[2]))
+        out.append((base, again[3]))
     return out
 
 
@@ -138,7 +144,13 @@ def binary_runs(ctx, rng, n_trees, runs_per_tree):
                     f.write('path = "./contracts"\noptimizations = %s\nvulnerabilities = %s\nqa = %s\n'
                             % (json.dumps(lists['opt']), json.dumps(lists['vul']), json.dumps(lists['qa'])))
                 argv = [binary, '--toml', 'order.toml']
-            p = subprocess.run(argv, cwd=root, stdout=subprocess.PIPE, stderr=subprocess.PIPE, timeout=300)
+            # ... and neither does the environment of the process (time zone, locale, reproducible-build clock, home directory)
+            env = dict(os.environ)
+            if r % 2 == 1 or t % 2 == 1:
+                env.update({'SOURCE_DATE_EPOCH': str(rng.choice([0, 1, 1700000000, 1800000000, 4102444800])), 'TZ': rng.choice(['UTC', 'Pacific/Kiritimati', 'America/Anchorage']),
+                            'LC_ALL': rng.choice(['C', 'tr_TR.UTF-8', 'de_DE.UTF-8']), 'LANG': 'xx_XX', 'HOME': root, 'USER': 'someone-%d' % t,
+                            'COLUMNS': str(rng.choice([20, 80, 400])), 'NO_COLOR': '1', 'RUST_LOG': 'trace', 'SOLSTAT_DEBUG': '1', 'CI': 'true'})
+            p = subprocess.run(argv, cwd=root, env=env, stdout=subprocess.PIPE, stderr=subprocess.PIPE, timeout=300)
             if p.returncode != 0 or not os.path.exists(rep_path):
                 out.append(([rel for rel, _ in order], 'EXIT %d: %s' % (p.returncode, p.stderr.decode(errors='replace')[-300:])))
             else:
@@ -209,7 +221,7 @@ def run(rep, ctx):
             return [distinct_outputs([(c, rc.run_impl_fresh(rc.vh_report(ctx), c)) for _ in range(8)]) > 1 for c in cands]
         small = rc.shrink(ctx, s, fails_same)
         outs8 = [rc.run_impl_fresh(rc.vh_report(ctx), small) for _ in range(12)]
-        rep.violation(rc.CODES[31] + ' - the same map, inserted in the same order, rendered by different processes',
+        rep.violation(rc.CODES[31] + ' - the same map, inserted in the same order, rendered by different processes (or again later in one process)',
                       {'kind': 'S', 'input': small, 'same_insertion_order': True, 'theorem': 'render_order_independent',
                        'n_failing_sets': len(hash_failing), 'n_sets': len(sets),
                        'distinct_outputs': [rc.show(o, 800) for o in list(dict.fromkeys(outs8))[:3]],
